@@ -560,3 +560,71 @@ def asm_fit(r, payload):
                 if not (tr[c][:, :, ~fixed] == c + 1).all() or not (tr[c][:, :, fixed] == 0).all() or not (np.asarray(trace.llks)[c] == -(c + 1.0)).all():
                     r.violation(tag + "|trace", "chain %d of the multi-trace is not the %d-th assembler result with the fixed columns re-inserted" % (c, c + 1), payload)
         r.outcome((tag, len(calls), tuple(fixed.tolist())))
+
+
+def asm_compound(r, payload):
+    """assemble: mutation.compound_step -> base_step and structural.compound_step -> interval_step.  Each sub-step must receive the caller's reads, counts,
+    inbreeding, temperature and haplotype-space size unchanged, the likelihood and the cache returned by the previous sub-step, and the genotype object itself
+    (updated in place); the step returns what the last sub-step returned.  (Which sites / intervals are visited is C15's subject.)"""
+    from mchap.assemble import mutation, structural
+
+    reads = np.full((2, 3, 3), 0.25)
+    counts = np.array([2, 5])
+    F, T, luh = 0.375, 0.625, 2.5
+    n_alleles = np.array([2, 3, 2], np.int8)
+    for kind in ("mutation", "recombination", "dosage"):
+        for use_cache in (False, True):
+            g = np.zeros((2, 3), np.int8)
+            cache0 = ("cache", 0) if use_cache else None
+
+            def run(o):
+                calls = []
+
+                def sub(**kw):
+                    k = len(calls)
+                    calls.append(kw)
+                    return -10.0 - k, (("cache", k + 1) if use_cache else None)
+
+                if kind == "mutation":
+                    with patched((mutation, "np", NumpyProxy(o)), (mutation, "base_step", sub)):
+                        out = mutation.compound_step.py_func(genotype=g, reads=reads, llk=-3.5, n_alleles=n_alleles, log_unique_haplotypes=luh, inbreeding=F, temp=T,
+                                                             read_counts=counts, cache=cache0)
+                else:
+                    iv = np.array([[0, 1], [1, 3]])
+                    with patched((structural, "np", NumpyProxy(o)), (structural, "interval_step", sub)):
+                        out = structural.compound_step.py_func(genotype=g, reads=reads, llk=-3.5, intervals=iv, log_unique_haplotypes=luh, inbreeding=F,
+                                                               step_type=0 if kind == "recombination" else 1, randomize=True, temp=T, read_counts=counts, cache=cache0)
+                return calls, out
+
+            n = 0
+            for o, (calls, out) in explore(run, perm_mode="two"):
+                n += 1
+                r.evaluations += 1
+                r.transitions += len(calls)
+                tag = "asm-compound|%s|cache=%s" % (kind, use_cache)
+                want_n = 6 if kind == "mutation" else 2
+                if len(calls) != want_n:
+                    r.violation(tag + "|count", "%d sub-steps, expected %d" % (len(calls), want_n), payload)
+                    continue
+                bad = set()
+                for k, kw in enumerate(calls):
+                    if kw.get("genotype") is not g:
+                        bad.add("genotype")
+                    if kw.get("reads") is not reads:
+                        bad.add("reads")
+                    if kw.get("read_counts", "MISSING") is not counts:
+                        bad.add("read_counts")
+                    for name, v in (("inbreeding", F), ("temp", T), ("log_unique_haplotypes", luh), ("llk", -3.5 if k == 0 else -10.0 - (k - 1)),
+                                    ("cache", cache0 if k == 0 else (("cache", k) if use_cache else None))):
+                        if kw.get(name, "MISSING") != v:
+                            bad.add(name)
+                    if kind != "mutation" and kw.get("step_type", "MISSING") != (0 if kind == "recombination" else 1):
+                        bad.add("step_type")
+                    if kind == "mutation" and ("j" not in kw or kw.get("n_alleles", "MISSING") != n_alleles[int(kw["j"])]):
+                        bad.add("n_alleles")
+                if bad:
+                    r.violation(tag + "|args|" + ",".join(sorted(bad)), "sub-steps received other values than the compound step was given for %r" % sorted(bad), payload)
+                if out != (-10.0 - (want_n - 1), (("cache", want_n) if use_cache else None)):
+                    r.violation(tag + "|return", "the compound step returned %r, its last sub-step returned %r" % (out, (-10.0 - (want_n - 1), ("cache", want_n) if use_cache else None)), payload)
+                r.outcome((tag, n))
+            r.nontrivial += 1
